@@ -1,6 +1,7 @@
 package condition
 
 import (
+	"errors"
 	"strings"
 	"sync"
 
@@ -64,11 +65,27 @@ func isNullLiteral(n ast.Node) bool {
 	return false
 }
 
-// sqlEqualityOptions returns the compile options implementing SQL equality.
-func sqlEqualityOptions() []expr.Option {
+// errNullOperand makes the normal program fail on a NULL operand of = / != so
+// that the row is decided by the three-valued tolerant variant.
+var errNullOperand = errors.New("NULL operand in comparison")
+
+// sqlEqualityOptions returns the compile options implementing SQL equality. In
+// the normal program a NULL operand is an evaluation failure (the tolerant
+// variant then decides the row); in the tolerant variant it yields NULL.
+func sqlEqualityOptions(tolerant bool) []expr.Option {
+	onNull := func() (any, error) {
+		if tolerant {
+			return nil, nil
+		}
+		return false, errNullOperand
+	}
+	resultType := any(new(func(any, any) bool))
+	if tolerant {
+		resultType = new(func(any, any) any)
+	}
 	eq := func(params ...any) (res any, err error) {
 		if len(params) != 2 || isNilValue(params[0]) || isNilValue(params[1]) {
-			return false, nil
+			return onNull()
 		}
 		defer func() {
 			if r := recover(); r != nil {
@@ -79,7 +96,7 @@ func sqlEqualityOptions() []expr.Option {
 	}
 	ne := func(params ...any) (res any, err error) {
 		if len(params) != 2 || isNilValue(params[0]) || isNilValue(params[1]) {
-			return false, nil
+			return onNull()
 		}
 		defer func() {
 			if r := recover(); r != nil {
@@ -89,8 +106,8 @@ func sqlEqualityOptions() []expr.Option {
 		return !runtime.Equal(params[0], params[1]), nil
 	}
 	return []expr.Option{
-		expr.Function("__sql_eq", eq, new(func(any, any) bool)),
-		expr.Function("__sql_ne", ne, new(func(any, any) bool)),
+		expr.Function("__sql_eq", eq, resultType),
+		expr.Function("__sql_ne", ne, resultType),
 		expr.Patch(sqlEqualityPatcher{}),
 	}
 }
@@ -281,10 +298,10 @@ func nullSafeComparisonOptions() []expr.Option {
 		op := op
 		opts = append(opts, expr.Function(name, func(params ...any) (any, error) {
 			if len(params) != 2 || isNilValue(params[0]) || isNilValue(params[1]) {
-				return false, nil
+				return nil, nil // unknown
 			}
 			return compareNonNull(op, params[0], params[1]), nil
-		}, new(func(any, any) bool)))
+		}, new(func(any, any) any)))
 	}
 	return append(opts, expr.Patch(nullSafeComparisonPatcher{}))
 }
@@ -297,7 +314,8 @@ func (ec *ExprCondition) evaluateNullTolerant(env any) bool {
 		if ec.expression == "" {
 			return
 		}
-		opts := append(append([]expr.Option{}, ec.options...), nullSafeComparisonOptions()...)
+		opts := append(append([]expr.Option{}, ec.options...), sqlEqualityOptions(true)...)
+		opts = append(opts, nullSafeComparisonOptions()...)
 		if p, err := expr.Compile(ec.expression, opts...); err == nil {
 			ec.tolerant = p
 		}
